@@ -66,11 +66,11 @@ theorem joinF_inv_step (h : Forwards src mi proj) {n : Nat} {st : JoinSt σ} (hi
       · exact hr y hy'
     have hlen : fin.length + (u :: r).length = n := by simpa using h3
     cases res with
-    | item a => simp only [join, hy, joinOn_item]; exact ⟨h1, keep, hlen⟩
-    | skip => simp only [join, hy]; exact ⟨h1, keep, hlen⟩
-    | err e => simp only [join, hy, joinOn_err]; exact ⟨h1, keep, hlen⟩
+    | item a => simp only [join_step_cons, hy, joinOn_item]; exact ⟨h1, keep, hlen⟩
+    | skip => simp only [join_step_cons, hy]; exact ⟨h1, keep, hlen⟩
+    | err e => simp only [join_step_cons, hy, joinOn_err]; exact ⟨h1, keep, hlen⟩
     | end_ =>
-      simp only [join, hy, joinOn_end, stJoinClosesEnded_fact, stJoinAdvances_fact, if_true]
+      simp only [join_step_cons, hy, joinOn_end, stJoinClosesEnded_fact, stJoinAdvances_fact, if_true]
       refine ⟨fun y hy' => ?_, hr, ?_⟩
       · simp only [List.mem_append, List.mem_singleton] at hy'
         rcases hy' with hy' | rfl
